@@ -113,6 +113,12 @@ fn record(report: &mut Report, def: &PairDef, case: &Case, info: &generate::GenI
     if st.dated_contracts_near_year_boundary > 0 {
         report.cover_n("dated_contract:expiry_where_iso_week_year_differs", st.dated_contracts_near_year_boundary);
     }
+    if st.option_contracts_checked > 0 {
+        report.cover_n("option_contract:strike_and_right_in_market_id", st.option_contracts_checked);
+    }
+    if st.option_strikes_with_3_or_more_decimals > 0 {
+        report.cover_n("option_contract:strike_with_3_or_more_decimals", st.option_strikes_with_3_or_more_decimals);
+    }
     report.info("payloads_synthesised", case.probes.len() as u64);
     report.info("instruments_subscribed", case.instruments.len() as u64);
     report.info("token_collisions_skipped", info.collisions_skipped);
@@ -270,6 +276,8 @@ fn main() {
         report.require("bitfinex:remap_via_validator");
         report.require("dated_contract:expiry_date_in_market_id");
         report.require("dated_contract:expiry_where_iso_week_year_differs");
+        report.require("option_contract:strike_and_right_in_market_id");
+        report.require("option_contract:strike_with_3_or_more_decimals");
     }
     report.notes.push("path: WebSocketSubMapper::map -> ExchangeTransformer::init -> ExchangeStream<WebSocketParser, in-memory stream, Transformer> fed with WsMessage::Text; Bitfinex ids remapped by BitfinexWebSocketSubValidator::validate against a loopback venue".into());
     std::process::exit(report.finish(args.out.as_deref()));
